@@ -342,6 +342,9 @@ func (r *Resolver) of(v ssa.Value) *Org {
 			n := []string{"ok", "key", "value"}[x.Index]
 			return &Org{K: "range", V: x, Name: n, Sub: in.Sub}
 		}
+		if in.K == "lookup" && x.Index == 0 {
+			return &Org{K: "lookup", V: x, Sub: in.Sub}
+		}
 		return &Org{K: "ext", V: x, Name: fmt.Sprint(x.Index), Sub: []*Org{in}, Idx: x.Index}
 	case *ssa.Next:
 		it := x.Iter
